@@ -76,6 +76,10 @@ N={
  'C18-e':("wallet/wallet.go rebroadcast goroutine: defer stop(); defer cancel() (thread-group slot released before the reorg subscription is removed)","Close while the manager's unsubscribe cannot finish immediately (busy manager)"),
  'C20-c':("wallet/seed.go decodeBIP39Phrase tests wordMap[word]==0 instead of presence: 'abandon' (index 0) is rejected","a phrase containing the first list word"),
  'C20-d':("wallet/seed.go KeyFromSeed writes the index as uint32","a key index >= 2^32"),
+ 'C12-c':("syncer/syncer.go syncLoop marks the peer synced after one parallelSync round, ignoring SendHeaders' remaining count","a gap between common ancestor and peer tip larger than one header batch"),
+ 'C12-d':("chain/db.go RevertBlock element revert condition off by one at the v2 require height","a branch whose block at exactly RequireHeight spends a pre-fork output, and a heavier branch forking below that spends the same output in a v1 transaction"),
+ 'C19-c':("chain/db.go AncestorTimestamp looks the ancestor up through Block (false once pruned) instead of the stored header","tip at or below the Oak hardfork height, the ancestor's body pruned, then a new block"),
+ 'C19-d':("chain/manager.go AddBlocks: break instead of continue on a pruned block in the batch","PruneBlocks mid-chain, then a heavier fork submitted in one batch that starts with known (pruned) blocks"),
  'C19-a':("chain/manager.go PruneBlocks walks upwards from genesis and breaks on the first missing body","prune at h1>=1, then prune again at h2>h1"),
  'C19-b':("chain/manager.go MinReorgIndex checks Header instead of Block","PruneBlocks mid-chain, then a heavier fork with fork point at the reported index"),
  'C20-a':("wallet/seed.go decodeBIP39Phrase never checks the 12th word against the word list (reads as index 0)","11 valid words followed by an unknown token where the same 11 words plus 'abandon' have a valid checksum (1 in 16)"),
